@@ -74,6 +74,7 @@ type Engine struct {
 	sortFacts  []sortFact
 	mergeDefs  map[string][]string
 	leafT      map[string]types.Type
+	refComp    map[string]bool
 }
 
 type sortFact struct {
@@ -1016,7 +1017,7 @@ func addT(a, b string) string {
 // newRef allocates a reference distinct from every pre-existing and every earlier allocated one.
 func (e *Engine) newRef(prefix string) string {
 	r := e.fresh("alloc."+prefix, "Int")
-	e.assume(fmt.Sprintf("(and (> %s %s) (> %s 0))", r, e.water(), r))
+	e.assume(fmt.Sprintf("(and (> %s %s) (> %s 0) (> %s pre))", r, e.water(), r, r))
 	e.lastAlloc = r
 	return r
 }
